@@ -1,16 +1,31 @@
 """One driver for the render property checks: generate documents, run the implementation once per pair,
 apply the given observers, and run the coarse correspondence seam (_htmldiff vs Model/RenderMerge.v)."""
+import itertools
+
 import render_checks as rc
 import render_lib as rl
 from common import rng_for
+from gen import smallscope
 
 
 def run_render(rep, ctx, label, observers, n_quick, n_thorough, corr_fraction=1.0, include='all', identity=False,
-               extra_pairs=(), big=False, url_rules='jsessionid', small_caps=False):
+               extra_pairs=(), big=False, url_rules='jsessionid', small_caps=False, small_scope=True):
     tier = ctx['tier']
     rng = rng_for(ctx['seed'], label)
     n = n_quick if tier == 'quick' else n_thorough
     docs = rc.documents(rng, n) + list(extra_pairs)
+    n_scope = 0
+    if small_scope:
+        # small-scope exhaustive: every page of at most 2 nodes over a tiny alphabet against every other one (thorough), or
+        # every third of them (quick); thorough adds every 3-node page against itself
+        ps = smallscope.pages(2, 2)
+        if tier == 'quick':
+            ps = ps[::3]
+        scope = list(itertools.product(ps, ps))
+        if tier != 'quick':
+            scope += [(p3, p3) for p3 in smallscope.pages(3, 2)]
+        n_scope = len(scope)
+        docs += scope
     fail_counts = {name: 0 for name, _ in observers}
     n_crash = 0
     frag_pairs = []
@@ -142,6 +157,7 @@ def run_render(rep, ctx, label, observers, n_quick, n_thorough, corr_fraction=1.
                         rep.violation('%s-big-%d' % (label, n_big), {'what': fails[:4], 'page': 'render_checks.big_page(%d, %d)' % (size, variant),
                                                                      'identical': a == b, 'max_spacers': h.MAX_SPACERS})
         rep.obligation('observer %s: pages beyond the spacer cap (%s elements)' % (label, [s for s, _ in sizes]), n_big == 0)
+    dist['small_scope_exhaustive_pairs'] = n_scope
     rep.extra['input_distribution'] = dist
     rep.sample({'a_text': docs[0][0][:400], 'b_text': docs[0][1][:400]})
     rep.sample({'a_text': docs[len(docs) // 2][0][:400], 'b_text': docs[len(docs) // 2][1][:400]})
@@ -153,4 +169,5 @@ def run_render(rep, ctx, label, observers, n_quick, n_thorough, corr_fraction=1.
     rep.rule = ('structured generator of small well-formed pages (nested blocks, lists, tables, inline markup, links, images, <br> + text, '
                 'script/style/svg/select/form controls, escaped entities, body-level text, existing ins/del, with/without head/body/doctype) '
                 'and structure-aware edits (word changes, inserted/deleted/moved blocks, inline wrappers, retargeted links) plus hand-picked '
-                'pairs from past findings; non-trivial = the two documents differ; distinct by document pair')
+                'pairs from past findings, plus a small-scope EXHAUSTIVE part: every page of <= 2 nodes (depth 2) over 5 leaves x 7 wrappers '
+                'against every other one (every third page in the quick tier; thorough adds all 855 three-node pages against themselves); non-trivial = the two documents differ; distinct by document pair')
